@@ -83,6 +83,7 @@ type c10Op struct {
 	Op  string  `json:"op"`
 	K   int     `json:"k"` // index into the key universe of the key kind
 	V   int     `json:"v,omitempty"`
+	K2  int     `json:"k2,omitempty"` // clone: the key inserted into the clone
 	Sub []c10Op `json:"during,omitempty"` // operations interleaved with a stepped range, one slot per step
 }
 
@@ -96,7 +97,7 @@ type c10History struct {
 func c10GenHistory(seed int64, idx int) c10History {
 	rng := core.Derive(seed, "c10", idx)
 	kind := c10Kinds[rng.Intn(len(c10Kinds))]
-	h := c10History{Kind: kind.name, Elem: core.Pick(rng, []string{"int", "string", "slice"}), Init: rng.Intn(4)}
+	h := c10History{Kind: kind.name, Elem: core.Pick(rng, []string{"int", "string", "slice", "float64", "uint8"}), Init: rng.Intn(4)}
 	n := rng.Range(10, 50)
 	pickKey := func() int { return rng.Intn(len(kind.keys)) }
 	last := pickKey()
@@ -119,6 +120,10 @@ func c10GenHistory(seed int64, idx int) c10History {
 			h.Ops = append(h.Ops, c10Op{Op: "len"})
 		case r < 17:
 			h.Ops = append(h.Ops, c10Op{Op: "range"})
+			if rng.Chance(1, 3) {
+				// clone, then one insert into the original and one into the clone, then range the original
+				h.Ops = append(h.Ops, c10Op{Op: "clone", K: k, K2: pickKey(), V: rng.Intn(1000)}, c10Op{Op: "range"})
+			}
 		case r < 18:
 			// drain: delete everything (drives the compaction threshold)
 			for x := range kind.keys {
@@ -154,6 +159,10 @@ func c10ElemOf(name string) c10Elem {
 		return c10Elem{name, goatlang.TypeString}
 	case "slice":
 		return c10Elem{name, goatlang.TypeSlice | goatlang.TypeInt32<<8}
+	case "float64":
+		return c10Elem{name, goatlang.TypeFloat64}
+	case "uint8":
+		return c10Elem{name, goatlang.TypeUint8}
 	}
 	return c10Elem{name, goatlang.TypeInt32}
 }
@@ -164,6 +173,10 @@ func (e c10Elem) mk(v int) goatlang.Value {
 		return goatlang.String("v" + strconv.Itoa(v))
 	case "slice":
 		return goatlang.NewSlice(goatlang.TypeInt32, []goatlang.Value{goatlang.Int(v)})
+	case "float64":
+		return goatlang.Float64(float64(v))
+	case "uint8":
+		return goatlang.Byte(byte(v))
 	}
 	return goatlang.Int(v)
 }
@@ -183,8 +196,35 @@ func (e c10Elem) render(v int, present bool) string {
 		return "v" + strconv.Itoa(v)
 	case "slice":
 		return "[" + strconv.Itoa(v) + "]"
+	case "uint8":
+		return strconv.Itoa(v & 255)
 	}
 	return strconv.Itoa(v)
+}
+
+// probe: in scripts a float64 or uint8 element is observed through a type-sensitive expression
+// (halved / +200 wrapped), so that an element stored without its declared type shows.
+func (e c10Elem) probe(expr string) string {
+	switch e.name {
+	case "float64":
+		return expr + "/2"
+	case "uint8":
+		return expr + "+200"
+	}
+	return expr
+}
+
+func (e c10Elem) renderProbe(v int, present bool) string {
+	if !present {
+		v = 0
+	}
+	switch e.name {
+	case "float64":
+		return strconv.FormatFloat(float64(v)/2, 'g', -1, 64)
+	case "uint8":
+		return strconv.Itoa(((v & 255) + 200) & 255)
+	}
+	return e.render(v, present)
 }
 
 // c10RunHost replays a history through the host Value API against the mirror.
@@ -359,7 +399,10 @@ func c10Script(h c10History) (src string, ok bool) {
 		et = "string"
 	case "slice":
 		et = "[]int"
+	case "float64", "uint8":
+		et = h.Elem
 	}
+	elem := c10ElemOf(h.Elem)
 	kind := c10KindByName(h.Kind)
 	val := func(v int) string {
 		switch h.Elem {
@@ -367,11 +410,13 @@ func c10Script(h c10History) (src string, ok bool) {
 			return strconv.Quote("v" + strconv.Itoa(v))
 		case "slice":
 			return "[]int{" + strconv.Itoa(v) + "}"
+		case "uint8":
+			return strconv.Itoa(v & 255)
 		}
 		return strconv.Itoa(v)
 	}
 	var sb strings.Builder
-	fmt.Fprintf(&sb, "func hist() {\n")
+	fmt.Fprintf(&sb, "import \"golang.org/x/exp/maps\"\n\nfunc hist() {\n")
 	var lits []string
 	seen := map[string]bool{}
 	for i := 0; i < h.Init && i < len(kind.keys); i++ {
@@ -396,14 +441,17 @@ func c10Script(h c10History) (src string, ok bool) {
 		case "delete":
 			fmt.Fprintf(&sb, "\tdelete(m, %s)\n", k)
 		case "get":
-			fmt.Fprintf(&sb, "\tprintln(\"g\", m[%s])\n", k)
+			fmt.Fprintf(&sb, "\tprintln(\"g\", %s)\n", elem.probe("m["+k+"]"))
 		case "getok":
 			n++
-			fmt.Fprintf(&sb, "\tv%d, ok%d := m[%s]\n\tprintln(\"o\", v%d, ok%d)\n", n, n, k, n, n)
+			fmt.Fprintf(&sb, "\tv%d, ok%d := m[%s]\n\tprintln(\"o\", %s, ok%d)\n", n, n, k, elem.probe(fmt.Sprintf("v%d", n)), n)
 		case "len":
 			fmt.Fprintf(&sb, "\tprintln(\"l\", len(m))\n")
+		case "clone":
+			n++
+			fmt.Fprintf(&sb, "\tc%d := maps.Clone(m)\n\tm[%s] = %s\n\tc%d[%s] = %s\n\tprintln(\"cl\", len(c%d), len(m))\n", n, k, val(op.V), n, c10ScriptKey(kind, op.K2), val(op.V+1), n)
 		case "range":
-			fmt.Fprintf(&sb, "\tprintln(\"rb\")\n\tfor k, v := range m {\n\t\tprintln(\"rv\", k, v)\n\t}\n\tprintln(\"re\")\n")
+			fmt.Fprintf(&sb, "\tprintln(\"rb\")\n\tfor k, v := range m {\n\t\tprintln(\"rv\", k, %s)\n\t}\n\tprintln(\"re\")\n", elem.probe("v"))
 		case "range-stepped":
 			// mutate while iterating: the i-th visit performs the i-th sub-operation
 			n++
@@ -448,6 +496,7 @@ func c10CheckScript(h c10History, out string) string {
 	}
 	lines := strings.Split(strings.TrimSuffix(out, "\n"), "\n")
 	pos := 0
+	cloneLen := 0
 	nextLine := func() (string, bool) {
 		if pos >= len(lines) {
 			return "", false
@@ -464,6 +513,13 @@ func c10CheckScript(h c10History, out string) string {
 	}
 	applyModel := func(op c10Op) {
 		switch op.Op {
+		case "clone":
+			cl := map[any]bool{kind.native(kind.keys[op.K2]): true}
+			for k := range mirror {
+				cl[k] = true
+			}
+			cloneLen = len(cl)
+			mirror[kind.native(kind.keys[op.K])] = op.V
 		case "set":
 			mirror[kind.native(kind.keys[op.K])] = op.V
 		case "delete":
@@ -486,9 +542,12 @@ func c10CheckScript(h c10History, out string) string {
 		switch op.Op {
 		case "set", "delete":
 			applyModel(op)
+		case "clone":
+			applyModel(op)
+			p = expectLine(fmt.Sprintf("cl %d %d", cloneLen, len(mirror)))
 		case "get":
 			v, present := mirror[kind.native(kind.keys[op.K])]
-			p = expectLine(strings.TrimRight("g "+elem.render(v, present), " "))
+			p = expectLine(strings.TrimRight("g "+elem.renderProbe(v, present), " "))
 			if h.Elem == "string" && !present {
 				p = ""
 				l := lines[pos-1]
@@ -498,7 +557,7 @@ func c10CheckScript(h c10History, out string) string {
 			}
 		case "getok":
 			v, present := mirror[kind.native(kind.keys[op.K])]
-			want := "o " + elem.render(v, present) + " " + strconv.FormatBool(present)
+			want := "o " + elem.renderProbe(v, present) + " " + strconv.FormatBool(present)
 			l, ok := nextLine()
 			if !ok || strings.Join(strings.Fields(l), " ") != strings.Join(strings.Fields(want), " ") {
 				p = fmt.Sprintf("printed %q, Go semantics give %q", l, want)
@@ -555,8 +614,8 @@ func c10CheckScript(h c10History, out string) string {
 					if len(f) > 2 {
 						got = f[2]
 					}
-					if got != elem.render(v, true) {
-						p = fmt.Sprintf("range delivered %v:%s, the map holds %s", nk, got, elem.render(v, true))
+					if got != elem.renderProbe(v, true) {
+						p = fmt.Sprintf("range delivered %v:%s, the map holds %s", nk, got, elem.renderProbe(v, true))
 						break
 					}
 				}
@@ -604,7 +663,7 @@ func c10RunScript(h c10History) (string, bool) {
 }
 
 func runC10(r *core.Run) {
-	r.SetRule("random operation histories (insert, update, delete, lookup, comma-ok, len, full range, range with insert/delete interleaved at chosen visits, drain-to-empty to cross the compaction threshold, delete->reinsert of the same key) over a universe of 2-8 keys per key kind {string, int, int8, uint8, uint32, float64 incl. +-0 and +-Inf, bool} and element kinds {int, string, []int}; every history runs through the host Value API (with the internal key list inspected after every operation) and, for string and int keys, also as a generated script. non-trivial = at least 5 operations executed; distinct by history")
+	r.SetRule("random operation histories (insert, update, delete, lookup, comma-ok, len, full range, range with insert/delete interleaved at chosen visits, drain-to-empty to cross the compaction threshold, delete->reinsert of the same key) over a universe of 2-8 keys per key kind {string, int, int8, uint8, uint32, float64 incl. +-0 and +-Inf, bool} and element kinds {int, string, []int, float64, uint8 - the last two observed in scripts through a type-sensitive expression}; maps.Clone followed by one insert into the original and one into the clone; every history runs through the host Value API (with the internal key list inspected after every operation) and, for string and int keys, also as a generated script. non-trivial = at least 5 operations executed; distinct by history")
 	r.Assume("a native Go map is the model for point queries; for ranges only the Go-spec constraints are judged (exactly once for keys live throughout, never a key that is not in the map at that moment, at most once for inserted keys), never the order; NaN keys are excepted by the property")
 	n := r.N(20000, 600000)
 	core.Parallel((n+199)/200, func(chunk int) {
